@@ -25,21 +25,19 @@ __CPROVER_ensures((0 <= nv_g && nv_g < NV_DP_SAMPLES.n) ==> (nv_e_pred == 1 && n
 __CPROVER_ensures(!(0 <= nv_g && nv_g < NV_DP_SAMPLES.n) ==> nv_e_pred == 0)
 
 /* ================================================================================================ make_function overrides */
-struct nv_lfun2 { uint64_t it; double l1, l2; };                 /* linear::function_t{iterator, loss, l1reg, l2reg} */
+struct nv_lfun2 { uint64_t it_id; double l1, l2; };                 /* linear::function_t{iterator, loss, l1reg, l2reg} */
 double nv_param_val[2];                                          /* the trial's hyper-parameters (ghost inputs) */
 static double nv_params_at(struct nv_lt params, int64_t k)
 { __CPROVER_assert(0 <= k && k < params.rows && k < 2, "make_function: params(k) inside the trial's hyper-parameters (C16)"); return nv_param_val[k]; }
-static struct nv_lfun2 nv_lfun2_make(const struct nv_fiter* it, double l1, double l2) { struct nv_lfun2 f; f.it = it->id; f.l1 = l1; f.l2 = l2; return f; }
-#define NV_MF_REQ(n) __CPROVER_requires(NV_LT_FRESH(iterator) && params.rows == (n))
+static struct nv_lfun2 nv_lfun2_make(const struct nv_fiter* it, double l1, double l2) { struct nv_lfun2 f; f.it_id = it->id; f.l1 = l1; f.l2 = l2; return f; }
+/* parameters by position (self, iterator, loss, params): a renamed parameter does not break the contracts */
 #define NV_MF_RET __CPROVER_return_value
-#define NV_CONTRACT_ordinary_make_function NV_MF_REQ(0) __CPROVER_assigns() \
-__CPROVER_ensures(NV_MF_RET.it == iterator->id && NV_IDENT(NV_MF_RET.l1, 0.0) && NV_IDENT(NV_MF_RET.l2, 0.0))
-#define NV_CONTRACT_lasso_make_function NV_MF_REQ(1) __CPROVER_assigns() \
-__CPROVER_ensures(NV_MF_RET.it == iterator->id && NV_IDENT(NV_MF_RET.l1, nv_param_val[0]) && NV_IDENT(NV_MF_RET.l2, 0.0))
-#define NV_CONTRACT_ridge_make_function NV_MF_REQ(1) __CPROVER_assigns() \
-__CPROVER_ensures(NV_MF_RET.it == iterator->id && NV_IDENT(NV_MF_RET.l1, 0.0) && NV_IDENT(NV_MF_RET.l2, nv_param_val[0]))
-#define NV_CONTRACT_elastic_net_make_function NV_MF_REQ(2) __CPROVER_assigns() \
-__CPROVER_ensures(NV_MF_RET.it == iterator->id && NV_IDENT(NV_MF_RET.l1, nv_param_val[0]) && NV_IDENT(NV_MF_RET.l2, nv_param_val[1]))
+#define NV_MF_CONTRACT(it, prm, n, e1, e2) __CPROVER_requires(NV_LT_FRESH(it) && (prm).rows == (n)) __CPROVER_assigns() \
+__CPROVER_ensures(NV_MF_RET.it_id == (it)->id && NV_IDENT(NV_MF_RET.l1, e1) && NV_IDENT(NV_MF_RET.l2, e2))
+#define NV_CONTRACT_ordinary_make_function NV_MF_CONTRACT(NV_ARG_ordinary_make_function_1, NV_ARG_ordinary_make_function_3, 0, 0.0, 0.0)
+#define NV_CONTRACT_lasso_make_function NV_MF_CONTRACT(NV_ARG_lasso_make_function_1, NV_ARG_lasso_make_function_3, 1, nv_param_val[0], 0.0)
+#define NV_CONTRACT_ridge_make_function NV_MF_CONTRACT(NV_ARG_ridge_make_function_1, NV_ARG_ridge_make_function_3, 1, 0.0, nv_param_val[0])
+#define NV_CONTRACT_elastic_net_make_function NV_MF_CONTRACT(NV_ARG_elastic_net_make_function_1, NV_ARG_elastic_net_make_function_3, 2, nv_param_val[0], nv_param_val[1])
 
 /* ================================================================================================ ::make_x0 */
 struct nv_xt { uint64_t id; int64_t size; };                     /* tensor1d_t / tensor2d_t of a linear::result_t: identity, #coefficients */
@@ -66,15 +64,17 @@ static void nv_seg_assign(struct nv_seg s, struct nv_xarr a)
   if (s.off <= nv_gk && nv_gk - s.off < s.len)
   { __CPROVER_assume(nv_gk_writes < 1000); nv_gk_writes = nv_gk_writes + 1; nv_gk_src = a.id; nv_gk_pos = nv_gk - s.off; }
 }
-#define NV_X_W extra->r.m_weights
-#define NV_X_B extra->r.m_bias
+#define NV_X_F NV_ARG_linear_make_x0_0
+#define NV_X_E NV_ARG_linear_make_x0_1
+#define NV_X_W NV_X_E->r.m_weights
+#define NV_X_B NV_X_E->r.m_bias
 #define NV_CONTRACT_linear_make_x0 \
-__CPROVER_requires(__CPROVER_is_fresh(function, sizeof(*function)) && __CPROVER_is_fresh(extra, sizeof(*extra)) && function->size >= 0) \
+__CPROVER_requires(__CPROVER_is_fresh(NV_X_F, sizeof(*NV_X_F)) && __CPROVER_is_fresh(NV_X_E, sizeof(*NV_X_E)) && NV_X_F->size >= 0) \
 /* the warm start is a model of the same shape as the objective (same dataset; C13 hands over the closest earlier trial) */ \
-__CPROVER_requires(NV_X_W.size >= 0 && NV_X_B.size >= 0 && NV_X_W.size <= 1000000000 && NV_X_B.size <= 1000000000 && (extra->has ==> function->size == NV_X_W.size + NV_X_B.size) && NV_X_W.id != 0 && NV_X_B.id != 0) \
+__CPROVER_requires(NV_X_W.size >= 0 && NV_X_B.size >= 0 && NV_X_W.size <= 1000000000 && NV_X_B.size <= 1000000000 && (NV_X_E->has ==> NV_X_F->size == NV_X_W.size + NV_X_B.size) && NV_X_W.id != 0 && NV_X_B.id != 0) \
 __CPROVER_assigns(nv_gk_src, nv_gk_pos, nv_gk_writes) \
-__CPROVER_ensures(__CPROVER_return_value.n == function->size) \
-__CPROVER_ensures(!(extra->has != 0) ==> (nv_gk_src == 0 && nv_gk_writes == 0)) \
-__CPROVER_ensures(((extra->has != 0) && 0 <= nv_gk && nv_gk < NV_X_W.size) ==> (nv_gk_writes == 1 && nv_gk_src == NV_X_W.id && nv_gk_pos == nv_gk)) \
-__CPROVER_ensures(((extra->has != 0) && NV_X_W.size <= nv_gk && nv_gk < NV_X_W.size + NV_X_B.size) ==> (nv_gk_writes == 1 && nv_gk_src == NV_X_B.id && nv_gk_pos == nv_gk - NV_X_W.size)) \
-__CPROVER_ensures(((extra->has != 0) && !(0 <= nv_gk && nv_gk < NV_X_W.size + NV_X_B.size)) ==> (nv_gk_src == 0 && nv_gk_writes == 0))
+__CPROVER_ensures(__CPROVER_return_value.n == NV_X_F->size) \
+__CPROVER_ensures(!(NV_X_E->has != 0) ==> (nv_gk_src == 0 && nv_gk_writes == 0)) \
+__CPROVER_ensures(((NV_X_E->has != 0) && 0 <= nv_gk && nv_gk < NV_X_W.size) ==> (nv_gk_writes == 1 && nv_gk_src == NV_X_W.id && nv_gk_pos == nv_gk)) \
+__CPROVER_ensures(((NV_X_E->has != 0) && NV_X_W.size <= nv_gk && nv_gk < NV_X_W.size + NV_X_B.size) ==> (nv_gk_writes == 1 && nv_gk_src == NV_X_B.id && nv_gk_pos == nv_gk - NV_X_W.size)) \
+__CPROVER_ensures(((NV_X_E->has != 0) && !(0 <= nv_gk && nv_gk < NV_X_W.size + NV_X_B.size)) ==> (nv_gk_src == 0 && nv_gk_writes == 0))
